@@ -400,3 +400,81 @@ def search_family(fam, prop):
     if fam == 'arith':
         return _arith_witness({'slot': ''}, budget=1500)
     return None
+
+
+# ---------------------------------------------------------------------------
+# Session histories (C15): fixed multi-query histories with the reply the property dictates
+_SESSIONS = [
+    (['--ans', '3 m', 'ans * 2', 'ans * 2'], '12 meter (length)'),
+    (['--ans', '3 m', '10 ft -> inch', 'ans'], '3 meter (length)'),
+    (['--ans', '5 kg', '255 -> hex', 'ans'], '5 kilogram (mass)'),
+    (['--ans', '3 m', 'foo bar baz', 'ans'], '3 meter (length)'),
+    (['--ans', '3 m', 'units for length', 'ans'], '3 meter (length)'),
+    (['--ans', '3 m', 'meter', 'ans'], '3 meter (length)'),
+    (['--ans', '3 m', 'search foo', 'ans'], '3 meter (length)'),
+    (['--ans', '3 m', '5 s', 'ans'], '5 second (time)'),
+    (['--ans', '3 m', 'factorize velocity', 'ans'], '3 meter (length)'),
+    (['3 m', ':ans on', 'ans * 2'], 'ERR No such unit ans'),
+    (['--ans', '3 m', ':ans off', '7 kg', ':ans on', 'ans'], '3 meter (length)'),
+    (['--ans', '2', 'ans + 1', 'ans + 1', 'ans + 1'], '5 (dimensionless)'),
+    (['--ans', '3 m', 'ANS', '_ * 2'], '6 meter (length)'),
+    (['--ans', '1 m', '2 m', 'meter', 'ans'], '2 meter (length)'),
+]
+
+
+def _session_witness():
+    if build_core() != 0:
+        return None
+    for args, want in _SESSIONS:
+        rc, so, se, dt = run([QUERY_BIN] + args, timeout=30)
+        blocks = [b for b in so.split('\n> ') if b.strip()]
+        last = blocks[-1] if blocks else ''
+        reply = '\n'.join(last.split('\n')[1:]).strip()
+        first = reply.splitlines()[0] if reply else ''
+        ok = first.startswith(want) if want.startswith('ERR') else first == want
+        if 'PANIC' in so:
+            ok = False
+        if not ok:
+            return {'replayer': 'session', 'input': {'history': args, 'expected_last_reply': want}, 'output': so, 'why': 'history %s: expected last reply %r, got %r' % (args, want, first),
+                    'cmd': ' '.join([QUERY_BIN] + ['%r' % a for a in args])}
+    return None
+
+
+_sf2 = search_family
+
+
+def search_family(fam, prop):  # noqa: F811
+    if fam == 'session':
+        return _session_witness()
+    return _sf2(fam, prop)
+
+
+_fw3 = find_witness
+
+
+def find_witness(o, rep):  # noqa: F811
+    if o.get('unit') == 'session':
+        return _session_witness()
+    return _fw3(o, rep)
+
+
+_rp3 = replay
+
+
+def replay(rep):  # noqa: F811
+    w = rep.get('replay') or {}
+    if w.get('replayer') == 'session':
+        if build_core() != 0:
+            return 0
+        i = rep['input']
+        rc, so, se, dt = run([QUERY_BIN] + i['history'], timeout=30)
+        print(so)
+        blocks = [b for b in so.split('\n> ') if b.strip()]
+        reply = '\n'.join((blocks[-1] if blocks else '').split('\n')[1:]).strip()
+        first = reply.splitlines()[0] if reply else ''
+        want = i['expected_last_reply']
+        ok = first.startswith(want) if want.startswith('ERR') else first == want
+        print('expected last reply: %r' % want)
+        print('replay: %s' % ('not reproduced' if ok and 'PANIC' not in so else 'violation reproduced on the real code'))
+        return 0 if ok else 1
+    return _rp3(rep)
